@@ -8,6 +8,7 @@ import (
 	"flag"
 	"fmt"
 	"os"
+	"sort"
 	"strings"
 	"time"
 
@@ -124,6 +125,26 @@ func main() {
 		// a whole upload fails (storage_retry_count exhausted): Sync must give up with an error (the process is restarted
 		// by its supervisor), it must not carry on as if the snapshot had been stored
 		parts = append(parts, part{"loop-" + name + "-store-outage", loopworld.Cfg{Native: native, RetryCount: 1, StoreFaults: 1, MaxVisits: 1, AppOps: []string{"put-b", "del-a"}}})
+	}
+	for _, native := range []bool{true, false} {
+		name := map[bool]string{true: "native", false: "shadow"}[native]
+		// transient download failures (within the downloader's retry loop), e.g. of the own snapshot after a restart
+		parts = append(parts, part{"loop-" + name + "-load-faults", loopworld.Cfg{Native: native, LoadFaults: true, MaxVisits: 1, AppOps: []string{"put-b", "del-a"}}})
+	}
+	// cheapest parts first: each part may use an equal share of what is left, so the expensive ones get what the cheap ones save
+	{
+		var small, large []part
+		for _, p := range parts {
+			if strings.HasSuffix(p.name, "-native") || strings.HasSuffix(p.name, "-shadow") {
+				large = append(large, p)
+			} else {
+				small = append(small, p)
+			}
+		}
+		sort.SliceStable(small, func(i, j int) bool {
+			return strings.Contains(small[i].name, "two-remotes") == false && strings.Contains(small[j].name, "two-remotes")
+		})
+		parts = append(small, large...)
 	}
 	for i, p := range parts {
 		restore := r.SubBudget(r.Remaining() / time.Duration(len(parts)-i))
